@@ -237,8 +237,171 @@ struct StreamPool {
     }
 };
 
+// ------------------------------------------------------------------ ST::string histories (C04, C18, C19)
+struct StrPool {
+    typedef ST::string S;
+    static const int MAXP = 8;
+    alignas(S) unsigned char mem[MAXP][sizeof(S)];
+    bool live[MAXP];
+    const void *lastp[MAXP];
+    int pool;
+    std::string extra;   // per-step extra facts (e.g. the rvalue argument after a failed set)
+    explicit StrPool(int p) : pool(p) { for (int i = 0; i < MAXP; ++i) { live[i] = false; lastp[i] = nullptr; } memset(mem, 0, sizeof(mem)); }
+    S &at(int i) { return *reinterpret_cast<S *>(mem[i]); }
+    void kill(int i) { at(i).~S(); live[i] = false; lastp[i] = nullptr; memset(mem[i], 0, sizeof(S)); }
+
+    std::string observe()
+    {
+        std::ostringstream o;
+        for (int i = 0; i < pool; ++i) {
+            o << ";" << i << "=";
+            if (!live[i]) { o << "-"; continue; }
+            S &b = at(i);
+            const unsigned char *d = reinterpret_cast<const unsigned char *>(b.data());
+            char loc = 'H';
+            for (int k = 0; k < pool; ++k)
+                if (d >= mem[k] && d < mem[k] + sizeof(S)) loc = (k == i) ? 'L' : 'F';
+            // p: data() is where it was after the previous step (n = object is new)
+            char same = lastp[i] == nullptr ? 'n' : (lastp[i] == b.data() ? '1' : '0');
+            lastp[i] = b.data();
+            o << hex(b.data(), b.size()) << ":" << b.size() << ":" << (b.data()[b.size()] == 0 ? 1 : 0) << ":" << loc << ":" << same;
+        }
+        bool sh = false;
+        for (int i = 0; i < pool; ++i)
+            for (int k = i + 1; k < pool; ++k) {
+                if (!live[i] || !live[k]) continue;
+                const char *a0 = at(i).data(), *a1 = a0 + at(i).size() + 1;
+                const char *b0 = at(k).data(), *b1 = b0 + at(k).size() + 1;
+                if (a0 < b1 && b0 < a1) sh = true;
+            }
+        o << ";sh=" << (sh ? 1 : 0);
+        return o.str();
+    }
+
+    static void battery(const S &x)
+    {
+        // a battery of const members and free functions; results are discarded
+        size_t sink = 0;
+        sink += x.size() + x.empty() + ST::hash()(x) + ST::hash_i()(x);
+        sink += x.compare(x) + x.compare("abc") + x.compare_i(x) + x.compare_n(x, 3) + (x == x) + (x != x) + (x < x);
+        sink += x.find('a') + x.find("bc") + x.find_last('a') + x.find_last("bc") + x.contains("q") + x.starts_with("a") + x.ends_with("z");
+        sink += x.to_utf16().size() + x.to_utf32().size() + x.to_wchar().size() + x.to_latin_1().size();
+        sink += x.to_std_string().size() + x.to_std_u16string().size() + x.view().size();
+        sink += x.to_int() + x.to_uint() + (size_t)x.to_double() + x.to_bool();
+        sink += x.trim().size() + x.to_upper().size() + x.left(2).size() + x.split('a').size() + x.tokenize().size();
+        sink += (x + x).size() + (x + "z").size() + ST::format("{}|{>8}", x, x).size();
+        { ST::string_stream ss; ss << x; sink += ss.size(); }
+        { std::ostringstream os; os << x; sink += os.str().size(); }
+        sink += ST::hex_encode(x.to_utf8()).size() + ST::base64_encode(x.to_utf8()).size();
+        for (auto it = x.begin(); it != x.end(); ++it) sink += (unsigned char)*it;
+        static volatile size_t g_sink; g_sink = sink;
+    }
+
+    void apply(const std::vector<std::string> &f)
+    {
+        const std::string &op = f[0];
+        int o = atoi(f[1].c_str());
+        auto idx = [&](int k) { return atoi(f[k].c_str()); };
+        if (op == "new") { Block<char> d = units<char>(f[2]); new (mem[o]) S(S::from_validated(d.data(), d.size())); live[o] = true; }
+        else if (op == "reads") { battery(at(o)); }
+        else if (op == "substr") { new (mem[o]) S(at(idx(2)).substr(i64(f[3]), u64(f[4]))); live[o] = true; }
+        else if (op == "left") { new (mem[o]) S(at(idx(2)).left(u64(f[3]))); live[o] = true; }
+        else if (op == "right") { new (mem[o]) S(at(idx(2)).right(u64(f[3]))); live[o] = true; }
+        else if (op == "upper") { new (mem[o]) S(at(idx(2)).to_upper()); live[o] = true; }
+        else if (op == "lower") { new (mem[o]) S(at(idx(2)).to_lower()); live[o] = true; }
+        else if (op == "trim") { new (mem[o]) S(at(idx(2)).trim()); live[o] = true; }
+        else if (op == "plus") { new (mem[o]) S(at(idx(2)) + at(idx(3))); live[o] = true; }
+        else if (op == "replace") {
+            Block<char> a = units<char>(f[3]), b = units<char>(f[4]);
+            S from = S::from_validated(a.data(), a.size()), to = S::from_validated(b.data(), b.size());
+            new (mem[o]) S(at(idx(2)).replace(from, to)); live[o] = true;
+        }
+        else if (op == "replace_self") { S &x = at(idx(2)); new (mem[o]) S(x.replace(x, x)); live[o] = true; }
+        else if (op == "utf8") { new (mem[o]) S(S::from_validated(at(idx(2)).to_utf8())); live[o] = true; }
+        else if (op == "before_first") { new (mem[o]) S(at(idx(2)).before_first(char(u64(f[3])))); live[o] = true; }
+        else if (op == "after_last") { new (mem[o]) S(at(idx(2)).after_last(char(u64(f[3])))); live[o] = true; }
+        else if (op == "split0") {   // first piece of split(char)
+            std::vector<S> v = at(idx(2)).split(char(u64(f[3])));
+            new (mem[o]) S(std::move(v[0])); live[o] = true;
+        }
+        else if (op == "empty") { new (mem[o]) S(); live[o] = true; }
+        else if (op == "copy") { new (mem[o]) S(at(idx(2))); live[o] = true; }
+        else if (op == "mctor") { new (mem[o]) S(std::move(at(idx(2)))); live[o] = true; }
+        else if (op == "asg") { at(o) = at(idx(2)); }
+        else if (op == "masg") { S &src = at(idx(2)); at(o) = std::move(src); }
+        else if (op == "set") { Block<char> d = units<char>(f[2]); at(o) = ST::char_buffer(d.data(), d.size()); }
+        else if (op == "append") { at(o) += at(idx(2)); }
+        else if (op == "clear") { at(o).clear(); }
+        else if (op == "del") { kill(o); }
+        // ---- operations that throw (C18): the exception propagates to run()
+        else if (op == "setfail") {          // rvalue char_buffer with ill-formed UTF-8 under check_validity
+            Block<char> d = units<char>(f[2]);
+            ST::char_buffer arg(d.data(), d.size());
+            try { at(o) = std::move(arg); } catch (...) { extra = ",arg=" + hex(arg); throw; }
+            extra = ",arg=" + hex(arg);
+        }
+        else if (op == "setcfail") { Block<char> d = units<char>(f[2], 1); at(o) = d.data(); }              // operator=(const char*)
+        else if (op == "ctorfail") { Block<char> d = units<char>(f[2]); S tmp(d.data(), d.size()); (void)tmp; }
+        else if (op == "appfail") { at(o) += char32_t(u64(f[2])); }
+        else if (op == "plusfail") { S r = at(o) + char32_t(u64(f[2])); (void)r; }
+        else if (op == "set16fail") { Block<char16_t> d = units<char16_t>(f[2]); at(o) = ST::utf16_buffer(d.data(), d.size()); }
+        else if (op == "set32fail") { Block<char32_t> d = units<char32_t>(f[2]); at(o).set(ST::utf32_buffer(d.data(), d.size())); }
+        else if (op == "from16fail") { Block<char16_t> d = units<char16_t>(f[2]); at(o) = S::from_utf16(d.data(), d.size()); }
+        else if (op == "latin1fail") { ST::char_buffer r = at(o).to_latin_1(false); (void)r; }              // char >= 0x100
+        else if (op == "hexfail") { Block<char> d = units<char>(f[2]); ST::char_buffer r = ST::hex_decode(S::from_validated(d.data(), d.size())); at(o) = r; }
+        else if (op == "b64fail") { Block<char> d = units<char>(f[2]); ST::char_buffer r = ST::base64_decode(S::from_validated(d.data(), d.size())); at(o) = r; }
+        else if (op == "fmtfail") {
+            const std::string &k = f[2];
+            if (k == "unterminated") at(o) = ST::format("abc{", at(o));
+            else if (k == "badchar") at(o) = ST::format("{!}", at(o));
+            else if (k == "missing") at(o) = ST::format("{}{}", at(o));
+            else if (k == "index") at(o) = ST::format("{&3}", at(o), 1);
+            else if (k == "noarg") at(o) = ST::format("{}");
+            else if (k == "badutf8") at(o) = ST::format("{}\xC3", at(o));
+        }
+        else { fprintf(stderr, "h_mem: unknown string op %s\n", op.c_str()); exit(2); }
+    }
+
+    std::string run(const Args &a)
+    {
+        std::vector<std::string> ops = split_on(a[1], ';');
+        long fail_step = -1, fail_k = -1;
+        if (a.size() > 2 && a[2].compare(0, 7, "failat=") == 0) {
+            std::vector<std::string> fk = split_on(a[2].substr(7), '@');
+            fail_k = atol(fk[0].c_str());
+            fail_step = atol(fk[1].c_str());
+        }
+        long base = g_live_arr;
+        std::ostringstream out;
+        for (size_t s = 0; s < ops.size(); ++s) {
+            std::vector<std::string> f = split_on(ops[s], ',');
+            std::string r = "ok";
+            extra.clear();
+            g_window = true;
+            g_window_allocs = 0;
+            g_fail_in = (long(s) == fail_step) ? fail_k : -1;
+            try {
+                apply(f);
+            } catch (const std::bad_alloc &) { r = "bad_alloc"; }
+            catch (const ST::unicode_error &) { r = "unicode_error"; }
+            catch (const ST::codec_error &) { r = "codec_error"; }
+            catch (const ST::bad_format &) { r = "bad_format"; }
+            catch (const std::out_of_range &) { r = "out_of_range"; }
+            catch (const std::invalid_argument &) { r = "invalid_argument"; }
+            g_window = false;
+            g_fail_in = -1;
+            out << (s ? "|" : "") << "r=" << r << extra << observe();
+        }
+        for (int i = 0; i < pool; ++i)
+            if (live[i]) kill(i);
+        out << "|leak=" << (g_live_arr - base);
+        return out.str();
+    }
+};
+
 static std::string dispatch(const std::string &op, const Args &a)
 {
+    if (op == "str") { StrPool p(atoi(a[0].c_str())); return p.run(a); }
     if (op == "ss") { StreamPool p(atoi(a[0].c_str())); return p.run(a); }
     if (op == "buf") {
         int pool = atoi(a[1].c_str());
